@@ -26,6 +26,8 @@ def run_property(prop, tier, root, write_evidence=True, quiet=False, selftest=Tr
         else:
             units = [u if not u.startswith('verif:') else F.synthetic_unit(u[6:]) for u in mod.UNITS]
         meta['units'] = units
+        if hasattr(mod, 'pre'):
+            mod.pre(root, R)          # rules that do not need the facts (compile-time witnesses) run first
         fx = F.load(root, units)
         R.note('extraction', {'units': len(units), 'cache_hits': fx.cache_hits, 'wall_s': round(fx.wall_s, 2),
                               'function_bodies_seen': len(fx.functions)})
